@@ -41,7 +41,8 @@ CONSTANTS Impls,       \* subset of {"plan_mutator", "msg_mutator"}
           MaxOpsIns,   \* bound on driver operations, inserting processor
           MaxGens,     \* bound on inserted generators
           MaxPost,     \* driver operations after the wrapper has finished
-          KeepHist     \* BOOLEAN: record the history (off for trace validation)
+          KeepHist,    \* BOOLEAN: record the history (off for trace validation)
+          DumpVariants \* alternatives whose maximal histories are printed (those the implementation can be run on)
 
 VARIABLES
   \* --- what is being run (chosen in Init, constant afterwards)
@@ -413,11 +414,15 @@ C21_TailRightAfterHead   == "tailorder" \notin bad \/ KF2   \* tail runs right a
 C21_NoReprocess          == "reprocessed" \notin bad \/ KF1 \* inserted messages are not handed to the processor
 C21_ExceptionsReachHost  == "excprop" \notin bad     \* an exception out of head/tail is thrown into the host at its yield
 C21_ReplyToYielder       == "reply" \notin bad       \* the driver's reply goes to the generator whose message it answers
+\* without exemption (PlanMutator_asfound_strict.cfg: shows that the signatures of the findings are reachable)
+C21_NoReprocess_Strict          == "reprocessed" \notin bad
+C21_HostGetsHeadResponse_Strict == "resp" \notin bad
+C21_TailRightAfterHead_Strict   == "tailorder" \notin bad
 
 ----------------------------------------------------------------------------
 Terminal == Idle /\ (nops = MaxOps \/ Halt \/ (wpc = "done" /\ post = MaxPost))
 \* used as a CONSTRAINT in the replay-generation configs: print every maximal history
-DumpHist == Terminal => PrintT(<<"HIST", impl, proc, variant, hist, bad, stale>>)
+DumpHist == (Terminal /\ variant \in DumpVariants) => PrintT(<<"HIST", impl, proc, variant, hist, bad, stale>>)
 
 TypeOK ==
   /\ wpc \in {"fresh", "top", "proc", "yield", "closing", "mm", "done"}
